@@ -213,7 +213,13 @@ def h_mixedcase(ctx, chain, kind, which):
         text = ctx.to_str(W.CBitcoinAddress.from_scriptPubKey(S.CScript(_script(ctx, kind, payload))))
         W.CBitcoinAddress(text)
         data = text[len(hrp) + 1:]
-        if which == 'upper_hrp':
+        if which.startswith('nonascii'):
+            # an all-upper-case / all-lower-case rendering with ONE arbitrary non-ASCII code point in place of a data character
+            pos = int(which.split('@')[1])
+            base = text.upper() if 'upper' in which else text
+            bad = ctx.str_concat(base[:len(hrp) + 1 + pos], ctx.text('wild', 1, 128, 0x10ffff), base[len(hrp) + 2 + pos:])
+            mixed = True
+        elif which == 'upper_hrp':
             bad = ctx.str_concat(hrp.upper() + '1', data)
             mixed = ctx.or_(*[ctx.and_(ctx.ord1(data[i]) >= 97, ctx.ord1(data[i]) <= 122) for i in range(len(data))])
         elif which == 'one_hrp_letter':
@@ -364,6 +370,8 @@ def instances(tier):
             out.append(dict(h='rechain', p=dict(chain_a=a, chain_b=b, kind=k)))
     for chain in CHAINS:
         out.append(dict(h='padded', p=dict(chain=chain, plen=20)))
+    for kind, which in (('p2wpkh', 'nonascii_upper@7'), ('p2wpkh', 'nonascii_lower@20'), ('p2wsh', 'nonascii_upper@33')):
+        out.append(dict(h='mixedcase', p=dict(chain='mainnet', kind=kind, which=which), max_seconds=1500))
     for i, which in enumerate(('upper_hrp', 'one_hrp_letter', 'upper_data')):
         for kind in ('p2wpkh', 'p2wsh'):
             out.append(dict(h='mixedcase', p=dict(chain=CHAINS[(i + (kind == 'p2wsh')) % 4], kind=kind, which=which)))
